@@ -166,8 +166,8 @@ def R2_conjunction(ctx):
         im = dict(aggs[0][3]).get("inner_models")
         # collect(map(iter(self.inner_services), closure))
         names = [c[1] for c in calls_in(im)]
-        trunc = [n for n in names if re.search(r"Iterator::(take|skip|filter|step_by|filter_map|take_while|skip_while)$", n)]
-        oks = contains(im, lambda s: s == ("field", ("arg", 1), "inner_services")) and any(n.endswith("Iterator::map") for n in names) and any("Iterator::collect" in n for n in names) and not trunc
+        trunc = [n for n in names if re.search(r"Iterator>?::(take|skip|filter|step_by|filter_map|take_while|skip_while)$", n)]
+        oks = contains(im, lambda s: s == ("field", ("arg", 1), "inner_services")) and any(itm(n, "map") for n in names) and any("Iterator::collect" in n for n in names) and not trunc
         det = short(im)[:200]
     ctx.check(oks, "combined:service-builds-all", "CombinedFrontierService::build does not build one model per inner service: %s" % det, sb.where(), detail=det)
     # EdgeCut
